@@ -68,7 +68,7 @@ End ZDictLemmas.
 
 Definition place3 (x : obj) (was_buffer : bool) (s : slot3_t) : slot3_t :=
   let '(p, b, a) := s in
-  if is_param x then (Some (Some x), b, a) else if was_buffer then (p, Some (Some x), a) else (p, b, Some x).
+  if was_buffer then (p, Some (Some x), a) else if is_param x then (Some (Some x), b, a) else (p, b, Some x).
 
 (* _set_tensor_dict (inplace=False) on the triple *)
 Definition std3 (s : slot3_t) (x : obj) : slot3_t * option obj :=
@@ -101,7 +101,7 @@ Lemma std_slot n k x st :
   st' = st /\ out = snd (std3 (slot3 n k) x) /\ slot3 n' k = fst (std3 (slot3 n k) x)
   /\ (forall k', k' <> k -> slot3 n' k' = slot3 n k') /\ m_custom n' = m_custom n /\ m_subs n' = m_subs n.
 Proof.
-  unfold set_tensor_dict, slot3, std3, place3.
+  unfold set_tensor_dict, set_tensor_dict_gen, fixed_D131, slot3, std3, place3. cbn [andb].
   destruct n as [cu ps bs ats subs]; node_cbn.
   destruct (d_get ps k) as [[o|]|] eqn:Ep; node_cbn;
     destruct (d_get bs k) as [[o2|]|] eqn:Eb; node_cbn; repeat (use_get; node_cbn);
@@ -156,17 +156,17 @@ Definition wf3 (s : slot3_t) : Prop :=
   match s with
   | (Some (Some o), None, None) => is_param o = true
   | (Some None, None, None) => True
-  | (None, Some (Some o), None) => is_param o = false
+  | (None, Some (Some o), None) => True
   | (None, Some None, None) => True
   | (None, None, Some o) => is_param o = false
   | (None, None, None) => True
   | _ => False
   end.
 
-(* what the restore theorem asks of a supplied tensor x for a slot: a regular module's buffer name does not receive a
-   Parameter (D131); a custom module's None entries are not addressed *)
+(* what the restore theorem asks of a supplied tensor x for a slot: a custom module's None entries are not addressed
+   (a regular module takes any tensor under any of its names since the repair of D131) *)
 Definition ok3 (cu : bool) (s : slot3_t) (x : obj) : Prop :=
-  if cu then fst3 s <> Some None /\ snd3 s <> Some None else (snd3 s <> None -> is_param x = false).
+  if cu then fst3 s <> Some None /\ snd3 s <> Some None else True.
 
 Definition mono3 (cu : bool) (s s1 : slot3_t) : Prop :=
   if cu then (fst3 s1 = Some None -> fst3 s = Some None) /\ (snd3 s1 = Some None -> snd3 s = Some None)
@@ -226,8 +226,8 @@ Proof.
     + destruct b as [[o0|]|]; cbn; try congruence.
       intros E; inversion E; subst. reflexivity.
   - destruct p as [[o0|]|]; destruct b as [[o2|]|]; destruct a as [o3|]; cbn; try tauto; intros Hwf Hok;
-      try (destruct (is_param x) eqn:Ex; cbn; intros E; inversion E; subst; cbn; rewrite ?Hwf; cbn; try reflexivity;
-           try (exfalso; assert (true = false) by (apply Hok; congruence); congruence); fail);
+      try (destruct (is_param x) eqn:Ex; cbn; intros E; inversion E; subst; cbn; rewrite ?Hwf; cbn; reflexivity);
+      try (intros E; inversion E; subst; cbn; rewrite ?Hwf; cbn; reflexivity);
       try (intros E; inversion E; fail).
 Qed.
 
@@ -863,9 +863,9 @@ Lemma enter_facts b st st1 memo1 swap :
   /\ (wf_heap (t_heap st) -> pass2_facts (cfg_of b true) (b_target b) st [] st1 memo1 swap).
 Proof.
   intros Hb Ht. pose proof Hb as (H1 & H2 & H3 & H4 & H5 & H6).
-  destruct (S_all (b_params b) (cfg_of b true) (block_ok_simple _ _ Hb) (b_target b) st [] st1 memo1 swap Ht eq_refl H5)
+  destruct (S_all (b_params b) (cfg_of b true) (block_ok_simple _ _ Hb) (b_target b) (clear_saved st) [] st1 memo1 swap Ht eq_refl H5)
     as (P1 & P2).
-  split; [exact P1|]. intros Hwf. now apply P2.
+  split; [exact P1|]. intros Hwf. exact (P2 Hwf H6).
 Qed.
 
 Lemma block_restore b st st1 memo1 swap st2 :
@@ -876,10 +876,10 @@ Lemma block_restore b st st1 memo1 swap st2 :
 Proof.
   intros Hb Hwf Ht H21. destruct (enter_facts b st st1 memo1 swap Hb Ht) as (P1 & P2).
   destruct P1 as (B1 & B2 & B3 & B4 & B5 & B6 & B7 & B8).
-  destruct (P2 Hwf st2 []) as (stY & memoY & sw' & Q1 & Q2 & Q3 & Q4 & Q5 & Q6).
+  destruct (P2 Hwf (clear_saved st2) []) as (stY & memoY & sw' & Q1 & Q2 & Q3 & Q4 & Q5 & Q6).
   { intros c. tauto. }
   { intros c _. apply H21. }
-  { eapply struct_same_trans; [exact B6|]. now apply all_sloteq_struct. }
+  { eapply struct_same_trans; [exact B6|]. exact (all_sloteq_struct st1 st2 H21). }
   unfold reverse_to_module. destruct Hb as (_ & _ & Hsd & _). rewrite Hsd.
   unfold to_module. rewrite Q1.
   assert (Hall : all_sloteq stY st).
@@ -1011,7 +1011,7 @@ Lemma ok3b_ok cu s x : ok3b cu s x = true -> ok3 cu s x.
 Proof.
   unfold ok3b, ok3, fst3, snd3. destruct s as [[p b] a]. destruct cu; cbn.
   - destruct p as [[o|]|]; destruct b as [[o2|]|]; cbn; intros H; try discriminate; split; congruence.
-  - destruct b; [|congruence]. intros H _. now apply negb_true_iff in H.
+  - auto.
 Qed.
 
 Lemma leaf_of_leaves : forall t k x, leaf_of t k x -> In (k, x) (leaves t).
@@ -1075,7 +1075,7 @@ Definition ex_heap : heap :=
     (1%Z, mkNode false [("w", Some (oP 3)); ("bias", None)] [] [] []);
     (2%Z, mkNode true [("w", Some (oP 1))] [] [] []) ].
 Definition ex_vals : list (Z * Z) := [(1, 10); (2, 20); (3, 30); (11, 1); (12, 2); (13, 3); (14, 4); (15, 5); (21, 7)]%Z.
-Definition ex_st : tstate := mkSt ex_heap ex_vals FRESH_BASE.
+Definition ex_st : tstate := mkSt ex_heap ex_vals FRESH_BASE [].
 Definition ex_td1 : ptd :=
   PTD [("w", PLeaf (Some (oT 11))); ("r", PLeaf (Some (oT 12))); ("a", PSub (PTD [("w", PLeaf (Some (oP 13)))]));
        ("b", PSub (PTD [("w", PLeaf (Some (oP 14)))])); ("c", PSub (PTD [("w", PLeaf (Some (oT 15)))]))].
@@ -1098,30 +1098,74 @@ Proof.
   vm_compute run_blocks. split; [repeat constructor; cbn; congruence|split; reflexivity].
 Qed.
 
-(* D131: a buffer name given an nn.Parameter, normal exit: the buffer ends in __dict__ *)
+(* D131 (repaired): a buffer name given an nn.Parameter, normal exit: inside the block the Parameter sits in _buffers,
+   afterwards the buffer is back in _buffers *)
 Definition ex_td3 : ptd := PTD [("r", PLeaf (Some (oP 12)))].
 Definition ex_b3 := mkBlock 0 None false false false true ex_td3.
-Lemma ex_D131 :
+Lemma ex_D131_repaired :
   let '(st', evs, oc) := run_blocks (mkExc XNone 0 false) [ex_b3] 0 ex_st in
-  Forall (fun e => ev_out e = OOk) evs /\ ~ all_sloteq st' ex_st.
+  Forall (fun e => ev_out e = OOk) evs /\ List.length evs = 2%nat /\ all_sloteq st' ex_st
+  /\ match evs with e :: _ => option_map (fun n => slot3 n "r") (hg (ev_state e) 0%Z) = Some (None, Some (Some (oP 12)), None)
+      | [] => False end.
 Proof.
-  vm_compute run_blocks. split.
-  - repeat constructor.
-  - intros H. specialize (H 0%Z). vm_compute in H. destruct H as (_ & _ & H). specialize (H "r"). vm_compute in H. discriminate.
+  destruct (run_blocks (mkExc XNone 0 false) [ex_b3] 0 ex_st) as [[st' evs] oc] eqn:E.
+  assert (Hev : Forall (fun e => ev_out e = OOk) evs /\ List.length evs = 2%nat
+                /\ match evs with e :: _ => option_map (fun n => slot3 n "r") (hg (ev_state e) 0%Z) = Some (None, Some (Some (oP 12)), None)
+                   | [] => False end).
+  { vm_compute in E. inversion E; subst. split; [repeat constructor|split; reflexivity]. }
+  destruct Hev as (H1 & H2 & H3). split; [exact H1|]. split; [exact H2|]. split; [|exact H3].
+  refine (proj1 (restore_normal _ _ _ _ _ _ _ _ E eq_refl H1 _ _)).
+  - constructor; [apply block_okb_ok; vm_compute; reflexivity|constructor].
+  - apply wf_heapb_ok; vm_compute; reflexivity.
 Qed.
 
-(* D134: inplace=True with a tied tensor: same objects, but the content is not the original one *)
+(* the witness of D131 on the code before the repair (f131 = false): the Parameter goes to _parameters, and the way back
+   finds the name in no buffer dict: the buffer ends in __dict__ *)
+Definition ex_root : mnode := mkNode false [("w", Some (oP 1))] [("r", Some (oT 2))] [] [].
+Definition there_and_back (f131 : bool) : option slot3_t :=
+  let '(n1, out, st1) := set_tensor_dict_gen f131 false ex_root "r" (oP 12) false ex_st in
+  match out with
+  | Some o => let '(n2, _, _) := set_tensor_dict_gen f131 false n1 "r" o false st1 in Some (slot3 n2 "r")
+  | None => None
+  end.
+Lemma unrepaired_D131 :
+  there_and_back false = Some (None, None, Some (oT 2)) /\ there_and_back true = Some (slot3 ex_root "r")
+  /\ slot3 ex_root "r" = (None, Some (Some (oT 2)), None).
+Proof. vm_compute. repeat split. Qed.
+
+(* D134 (repaired): inplace=True with a tied tensor: same objects, the content inside the block is the last supplied
+   value, and the original content is back after the exit *)
 Definition ex_b4 := mkBlock 0 (Some true) false false false true
   (PTD [("w", PLeaf (Some (oT 11))); ("c", PSub (PTD [("w", PLeaf (Some (oT 15)))]))]).
 Definition ex_heap4 : heap :=
   [ (0%Z, mkNode false [("w", Some (oP 1))] [] [] [("c", Some 2%Z)]); (2%Z, mkNode false [("w", Some (oP 1))] [] [] []) ].
-Lemma ex_D134 :
-  let '(st', evs, oc) := run_blocks (mkExc XNone 0 false) [ex_b4] 0 (mkSt ex_heap4 ex_vals FRESH_BASE) in
+Lemma ex_D134_repaired :
+  let '(st', evs, oc) := run_blocks (mkExc XNone 0 false) [ex_b4] 0 (mkSt ex_heap4 ex_vals FRESH_BASE []) in
   Forall (fun e => ev_out e = OOk) evs /\ t_heap st' = ex_heap4
-  /\ z_get (t_vals st') 1%Z = Some 1%Z /\ z_get ex_vals 1%Z = Some 10%Z.
+  /\ z_get (t_vals st') 1%Z = Some 10%Z /\ z_get ex_vals 1%Z = Some 10%Z
+  /\ match evs with e :: _ => z_get (t_vals (ev_state e)) 1%Z = Some 5%Z | [] => False end.
 Proof.
-  vm_compute run_blocks. split; [repeat constructor|]. split; [reflexivity|split; reflexivity].
+  vm_compute run_blocks. split; [repeat constructor|]. repeat split; reflexivity.
 Qed.
+
+(* the witness of D134 on the code before the repair (f134 = false): one node holding one Parameter under two names;
+   in-place swap of both names, then the saved values back in the same order: the tensor ends with the first supplied
+   value (1) instead of its own (10) *)
+Definition ex_tied : mnode := mkNode false [("w", Some (oP 1)); ("v", Some (oP 1))] [] [] [].
+Definition tied_roundtrip (f134 : bool) : option (Z * option Z) :=
+  let st0 := mkSt [] ex_vals FRESH_BASE [] in
+  let '(n1, o1, st1) := set_tensor_dict_gen true f134 ex_tied "w" (oT 11) true st0 in
+  let '(n2, o2, st2) := set_tensor_dict_gen true f134 n1 "v" (oT 15) true st1 in
+  match o1, o2 with
+  | Some c1, Some c2 =>
+      let '(n3, _, st3) := set_tensor_dict_gen true f134 n2 "w" c1 true (clear_saved st2) in
+      let '(n4, _, st4) := set_tensor_dict_gen true f134 n3 "v" c2 true st3 in
+      match z_get (t_vals st2) 1%Z with Some inside => Some (inside, z_get (t_vals st4) 1%Z) | None => None end
+  | _, _ => None
+  end.
+Lemma unrepaired_D134 :
+  tied_roundtrip false = Some (5%Z, Some 1%Z) /\ tied_roundtrip true = Some (5%Z, Some 10%Z) /\ z_get ex_vals 1%Z = Some 10%Z.
+Proof. vm_compute. repeat split. Qed.
 
 (* ------------------------------------------------------------------ statements used by Props/C13.v *)
 (* one block, no inner blocks: applying the returned swap puts every slot back, whatever _quick_set then does *)
@@ -1133,13 +1177,13 @@ Theorem swap_then_swap_back b st st1 memo1 swap :
 Proof.
   intros Hb Hwf Ht. destruct (enter_facts b st st1 memo1 swap Hb Ht) as (P1 & P2).
   destruct P1 as (B1 & B2 & B3 & B4 & B5 & B6 & B7 & B8).
-  destruct (P2 Hwf st1 []) as (stY & memoY & sw' & Q1 & Q2 & Q3 & Q4 & Q5 & Q6).
+  destruct (P2 Hwf (clear_saved st1) []) as (stY & memoY & sw' & Q1 & Q2 & Q3 & Q4 & Q5 & Q6).
   { intros c. tauto. }
   { intros c _. apply osloteq_refl. }
   { exact B6. }
-  exists stY, memoY, sw'. split; [exact Q1|]. split; [|congruence].
+  exists stY, memoY, sw'. split; [exact Q1|]. split; [|exact (eq_trans Q5 B1)].
   intros c. destruct (touched_dec [] memo1 c) as [Ht'|Hnt]; [now apply Q3|].
-  rewrite (Q4 c Hnt), (B5 c Hnt). apply osloteq_refl.
+  rewrite (Q4 c Hnt). change (osloteq (hg st1 c) (hg st c)). rewrite (B5 c Hnt). apply osloteq_refl.
 Qed.
 
 Definition restore_on_exception_statement : Prop :=
@@ -1162,24 +1206,6 @@ Proof.
   destruct HD as (Hen & _). exact (restore_on_exception _ _ _ _ _ _ _ E Hok Hwf Hen).
 Qed.
 
-(* the restore statement without the side condition on buffer names *)
-Definition block_ok_noscope (b : block) : Prop :=
-  b_usd b = false /\ (b_inplace b = None \/ b_inplace b = Some false) /\ b_swap_dest b = false /\ b_manual b = false
-  /\ keys_nodup (b_params b).
-Definition swap_then_restore_unconditional_statement : Prop :=
-  forall bs lvl st st' evs oc,
-    run_blocks (mkExc XNone 0 false) bs lvl st = (st', evs, oc) -> Forall (fun e => ev_out e = OOk) evs ->
-    Forall block_ok_noscope bs -> wf_heap (t_heap st) -> all_sloteq st' st.
-
-Theorem swap_then_restore_unconditional_refuted : ~ swap_then_restore_unconditional_statement.
-Proof.
-  intros H. pose proof ex_D131 as HD. destruct ex_hyps as (_ & Hwf).
-  destruct (run_blocks (mkExc XNone 0 false) [ex_b3] 0 ex_st) as [[st' evs] oc] eqn:E.
-  destruct HD as (Hev & Hne). apply Hne. refine (H _ _ _ _ _ _ E Hev _ Hwf).
-  constructor; [|constructor].
-  refine (conj eq_refl (conj (or_introl eq_refl) (conj eq_refl (conj eq_refl _)))). apply keys_nodupb_ok. reflexivity.
-Qed.
-
 (* a normal two-level program over the example heap (shared submodule, tied parameter, custom __setattr__ module) *)
 Lemma ex_normal_run :
   let '(st', evs, oc) := run_blocks (mkExc XNone 0 false) [ex_b1; ex_b2] 0 ex_st in
@@ -1187,31 +1213,39 @@ Lemma ex_normal_run :
 Proof. vm_compute. split; [repeat constructor|split; reflexivity]. Qed.
 
 (* inplace=True: a regular module keeps, under every name, the very object it held (the content is what changes) *)
-Lemma std_slot_inplace n k x st :
-  let '(n', out, st') := set_tensor_dict n k x true st in
+Lemma std_slot_inplace_gen f134 n k x st :
+  let '(n', out, st') := set_tensor_dict_gen true f134 n k x true st in
   wf3 (slot3 n k) -> out <> None ->
   slot3 n' k = slot3 n k /\ (forall k', k' <> k -> slot3 n' k' = slot3 n k') /\ m_custom n' = m_custom n /\ m_subs n' = m_subs n.
 Proof.
-  unfold set_tensor_dict, slot3, wf3.
+  unfold set_tensor_dict_gen, slot3, wf3. cbn [andb].
   destruct n as [cu ps bs ats subs]; node_cbn.
   destruct (d_get ps k) as [[o|]|] eqn:Ep; node_cbn;
     destruct (d_get bs k) as [[o2|]|] eqn:Eb; node_cbn; repeat (use_get; node_cbn);
       destruct (d_get ats k) as [o3|] eqn:Ea; node_cbn; repeat (use_get; node_cbn);
+        try match goal with
+        | |- context [z_get (t_saved st) (oid ?o)] =>
+            destruct (if f134 then z_get (t_saved st) (oid o) else None) as [c0|]; [|destruct (fresh_clone st o) as [c st1]]
+        end; cbv beta iota zeta;
         try (intros []; fail); try (intros _ H; congruence);
-        try (destruct (fresh_clone st o) as [c st1]); try (destruct (fresh_clone st o2) as [c st1]);
-        try (destruct (fresh_clone st o3) as [c st1]);
         intros Hw _; try rewrite Hw; try (apply negb_true_iff in Hw); node_cbn;
         try (rewrite Hw; node_cbn);
         (repeat split; intros; dsimp; reflexivity).
 Qed.
 
+Lemma std_slot_inplace n k x st :
+  let '(n', out, st') := set_tensor_dict n k x true st in
+  wf3 (slot3 n k) -> out <> None ->
+  slot3 n' k = slot3 n k /\ (forall k', k' <> k -> slot3 n' k' = slot3 n k') /\ m_custom n' = m_custom n /\ m_subs n' = m_subs n.
+Proof. exact (std_slot_inplace_gen fixed_D134 n k x st). Qed.
+
 (* use_state_dict=True (D132 repaired) and swap_dest= (D133 repaired) on the example heap: normal exit, the heap is back *)
 Definition ex_b5 := mkBlock 0 None true false false false (PTD [("w", PLeaf (Some (oT 11)))]).
 Definition ex_b6 := mkBlock 0 None false true false true (PTD [("w", PLeaf (Some (oT 11)))]).
 Lemma ex_usd_swap_dest_run :
-  (let '(st', evs, oc) := run_blocks (mkExc XNone 0 false) [ex_b5] 0 (mkSt ex_heap4 ex_vals FRESH_BASE) in
+  (let '(st', evs, oc) := run_blocks (mkExc XNone 0 false) [ex_b5] 0 (mkSt ex_heap4 ex_vals FRESH_BASE []) in
    oc = OOk /\ t_heap st' = ex_heap4)
-  /\ (let '(st', evs, oc) := run_blocks (mkExc XNone 0 false) [ex_b6] 0 (mkSt ex_heap4 ex_vals FRESH_BASE) in
+  /\ (let '(st', evs, oc) := run_blocks (mkExc XNone 0 false) [ex_b6] 0 (mkSt ex_heap4 ex_vals FRESH_BASE []) in
       oc = OOk /\ t_heap st' = ex_heap4).
 Proof. split; vm_compute; split; reflexivity. Qed.
 
